@@ -224,9 +224,7 @@ def cut_sets(case, flight, thorough):
     if case["flight"] != "tls":
         singles = range(1, n)
     elif thorough:
-        # every offset up to the end of the SNI extension, then every 8th, plus the zone cuts
-        dense = max(150, flight.find(host_of(case["name"]).encode()) + 16 if host_of(case["name"]) else 150)
-        singles = sorted(set(range(1, min(n, dense))) | set(range(dense, n, 8)) | set(zp))
+        singles = range(1, n)
     else:
         singles = zp
     for p in singles:
@@ -471,7 +469,7 @@ def run(ctx):
     ctx.bounds = {
         "stacks": ["%s/%s" % s for s in STACKS], "rules": {k: v for k, v in RULES.items()}, "flights": ["tls(sni match/other/none)", "http(host match/other) x syntax", "opaque", "server_first"],
         "http_syntax": HTTP_SYNTAX, "strategies": ["eager", "lazy"], "runs": runs,
-        "segmentation": ("every single cut (HTTP; TLS: every offset through the SNI extension, then every 8th), 1-byte segments, every pair of zone cuts (request line, Host line, record header, SNI, tail)" if ctx.thorough
+        "segmentation": ("every single cut, 1-byte segments, every pair of zone cuts (request line, Host line, record header, SNI, tail)" if ctx.thorough
                          else "every single cut (HTTP) / zone cuts (TLS), 1-byte segments, pairs of the first zone cuts"),
     }
     ctx.log("%d work items, %d runs" % (len(items), runs))
